@@ -380,6 +380,9 @@ class MTVRPGenerator(Generator):
         tw_length = b + (c - b) * torch.rand(batch_size, n_loc)
         d_0i = get_distance(locs[:, 0:1], locs[:, 1:])
         h_max = (self.max_time - service_time - tw_length) / d_0i * speed - 1
+        assert (
+            h_max >= 1  # reach the node, serve it and drive back before the depot closes
+        ).all(), "Time horizon (max_time) too low, not all nodes can be served and left in time to return to the depot."
         tw_start = (1 + (h_max - 1) * torch.rand(batch_size, n_loc)) * d_0i / speed
         tw_end = tw_start + tw_length
 
